@@ -52,18 +52,55 @@ class H:
     ins:   list of (name, rust int type)            symbolic inputs
     pre:   I -> z3 Bool                             documented precondition
     sym:   (ctx, it, I) -> O                        runs the MIR; O: name -> z3 term | python value (may raise Panic)
-    nat:   (natbin, vals) -> O                      runs the natively compiled real code on concrete inputs
+    cmd:   vals -> argv of `verif-native gck …`     the natively compiled real code on concrete inputs
+    parse: {key: text} -> O                         its printed result
     spec:  (I, O) -> [(label, z3 Bool | bool)]      assertions; O['panic'] / O['hang'] are python bools per path
     twins: (I, O) -> [(label, cond)]                vacuity witnesses that must be reachable
     samples: rng -> [vals]                          concrete inputs for translator validation"""
 
-    def __init__(self, name, unit, ins, pre, sym, nat, spec, twins=None, samples=None, need=(), max_steps=20000, depth=6):
-        self.name, self.unit, self.ins, self.pre, self.sym, self.nat, self.spec = name, unit, ins, pre, sym, nat, spec
+    def __init__(self, name, unit, ins, pre, sym, nat, spec, twins=None, samples=None, need=(), max_steps=20000, depth=6, qfbv=False):
+        self.name, self.unit, self.ins, self.pre, self.sym, self.spec = name, unit, ins, pre, sym, spec
+        self.cmd, self.parse = nat
         self.twins = twins or (lambda I, O: [])
         self.samples = samples or (lambda rng: [])
         self.need = list(need)
         self.max_steps = max_steps
+        self.qfbv = qfbv
         self.depth = depth
+
+
+def parse_out(h, r):
+    if "panic" in r:
+        return {"panic": True, "msg": r["panic"]}
+    if "hang" in r:
+        return {"panic": False, "hang": True}
+    if "unknown_op" in r or "unknown_command" in r:
+        raise Inconclusive("verif-native does not know the command of " + h.name)
+    o = h.parse(r)
+    o.setdefault("panic", False)
+    return o
+
+
+def nat_one(h, nat, vals):
+    return parse_out(h, common.native(nat, "gck", *h.cmd(vals)))
+
+
+def nat_batch(nat, jobs):
+    """jobs: [(h, vals)] -> [O]; one process for all"""
+    text = "\n".join(" ".join(str(a) for a in h.cmd(vals)) for h, vals in jobs) + "\n"
+    p = common.run([nat, "gck", "batch"], stdin=text, timeout=600, check=False)
+    chunks = p.stdout.split("--\n")
+    if len(chunks) < len(jobs) + 1:
+        raise Inconclusive("verif-native gck batch answered %d of %d commands: %s" % (len(chunks) - 1, len(jobs), p.stderr[-300:]))
+    outs = []
+    for (h, vals), ch in zip(jobs, chunks):
+        r = {}
+        for ln in ch.splitlines():
+            if "=" in ln:
+                k, v = ln.split("=", 1)
+                r[k] = v
+        outs.append(parse_out(h, r))
+    return outs
 
 
 def tobool(c):
@@ -96,6 +133,10 @@ def run_sym(h, ctx, it, I):
 def make_body(h, new_interp):
     def body(ctx, out):
         ctx.ex.max_steps = h.max_steps
+        if h.qfbv:
+            # everything in these harnesses is quantifier-free bit-vector logic: the dedicated solver is much faster
+            ctx.solver = z3.SolverFor("QF_BV")
+            ctx.solver.set("timeout", ctx.ex.query_timeout_ms)
         it = new_interp()
         I = {n: ctx.sym(n, ty).t for n, ty in h.ins}
         ctx.assume(h.pre(I))
@@ -185,6 +226,8 @@ def concretise(v, hn, k):
             return True
         if z3.is_false(s):
             return False
+        if "uninit" in str(s):
+            return None              # value of a slot that was never initialised (removed entry)
         raise Inconclusive("encoding wrong: output %s of %s is not concrete in a concrete run: %s" % (k, hn, s))
     return v
 
@@ -210,22 +253,20 @@ def same_outputs(a, b):
 
 def validate_translator(hs, new_interp, nat):
     rng = random.Random(common.seed() * 7919 + 3)
-    n = 0
-    for h in hs:
-        for vals in h.samples(rng):
-            a = sym_concrete(h, new_interp, vals)
-            b = h.nat(nat, vals)
-            d = same_outputs(a, b)
-            if d:
-                raise Inconclusive("encoding wrong: %s on %r: %s" % (h.name, vals, "; ".join(d[:4])))
-            n += 1
-    return n
+    jobs = [(h, vals) for h in hs for vals in h.samples(rng)]
+    real = nat_batch(nat, jobs)
+    for (h, vals), b in zip(jobs, real):
+        a = sym_concrete(h, new_interp, vals)
+        d = same_outputs(a, b)
+        if d:
+            raise Inconclusive("encoding wrong: %s on %r: %s" % (h.name, vals, "; ".join(d[:4])))
+    return len(jobs)
 
 
 def replay_witness(h, nat, w):
     """-> (reproduced, detail): runs the REAL natively compiled code on the solver's inputs"""
     vals = {n: int(w[n]) for n, _ in h.ins}
-    O = h.nat(nat, vals)
+    O = nat_one(h, nat, vals)
     bad = failed_labels(h, vals, O)
     return bool(bad), {"harness": h.name, "inputs": {k: hex(v) for k, v in vals.items()}, "real": {k: v for k, v in O.items() if not k.startswith("_")},
                        "violated": bad}
